@@ -242,8 +242,11 @@ class AsyncTLSStreamTransport(AsyncStreamTransport):
     async def send_all_from_iterable(self, iterable_of_data: Iterable[bytes | bytearray | memoryview]) -> None:
         if self.__closing:
             raise _utils.error_from_errno(errno.ECONNABORTED)
-        self._data_deque.extend(map(memoryview, iterable_of_data))
+        # The iterable may raise: do not leave the first chunks behind, they would be sent along with the next message.
+        chunks = list(map(memoryview, iterable_of_data))
         del iterable_of_data
+        self._data_deque.extend(chunks)
+        del chunks
         return await self.__flush_data_to_send()
 
     async def __flush_data_to_send(self) -> None:
